@@ -92,248 +92,240 @@ def run(rep):
     tier = rep.tier
     quick = tier == 'quick'
     rng = random.Random(rep.seed)
+    seed = rep.seed
     os.makedirs(WORKROOT, exist_ok=True)
     ex = concurrent.futures.ThreadPoolExecutor(max_workers=8)
-    jobs = {}
+    jobs = {}        # future -> key
+    handlers = {}    # key -> function(result)
+    timing = rep.extra.setdefault('timing_s', {})
+    t00 = time.time()
 
-    def submit(key, *args, **kwargs):
+    def submit(key, handler, *args, **kwargs):
         # several JVMs run side by side: keep their GC / JIT thread pools small
         env = dict(kwargs.pop('env', {}), JAVA_TOOL_OPTIONS='-XX:ParallelGCThreads=2 -XX:CICompilerCount=2')
-        jobs[key] = ex.submit(tlc.run, *args, env=env, heap='2g', **kwargs)
+        jobs[ex.submit(tlc.run, *args, env=env, heap='2g', **kwargs)] = key
+        handlers[key] = handler
 
-    # ---- T: export the live tables first (cheap), TLC checks them concurrently with the rest
+    # ------------------------------------------------------------------ handlers
+    def h_laws(key, res):
+        rep.add_tlc(res, exhaustive=True)
+        if res.postcondition_failed or res.violated:
+            raise RuntimeError('algebraic laws of the dimension model do not hold (MCDimLaws):\n' + res.stdout[-2000:])
+
+    def h_tdisp(key, res):
+        rep.add_tlc(res, exhaustive=True)
+        if res.violated == 'ModelOK':
+            raise RuntimeError('model tables ImplFuncs / RuleFuncs disagree')
+        info = res.emitted[-1] if res.emitted else None
+        if info is None:
+            raise RuntimeError('DimTable emitted nothing')
+        for row in info['rows']:
+            rep.violation('table:{}:{}'.format(row['f'], row['why']),
+                          'live dispatch table entry {} does not follow the dimension rule of the model ({})'.format(row['f'], row['why']),
+                          dict(row=[r for r in disp['rows'] if r['f'] == row['f']][:1]))
+        for f in info['missing']:
+            rep.violation('table:{}:missing'.format(f), 'function {} is in the model table but not in the live dispatch table'.format(f), None)
+        for f in info['extra']:
+            rep.violation('table:{}:unresolved'.format(f), 'live dispatch table key {} cannot be named'.format(f), None)
+        if res.violated and not (info['rows'] or info['missing'] or info['extra']):
+            raise RuntimeError('DimTable violated {} without a reason'.format(res.violated))
+        if not all(info['nprobes']):
+            raise RuntimeError('vacuity: a dispatch table row was compared on no probe')
+        rep.extra['dispatch_entries_checked'] = len(disp['rows'])
+        rep.extra['dispatch_probes_checked'] = sum(info['nprobes'])
+        for r in disp['rows']:
+            rep.case(('table', r['f'], r['disp']), nontrivial=True)
+        rep.traces += len(disp['rows'])
+
+    def h_tunit(key, res):
+        rep.add_tlc(res, exhaustive=True)
+        info = res.emitted[-1] if res.emitted else None
+        if info is None:
+            raise RuntimeError('UnitTable emitted nothing')
+        # root-cause keys: a wrong unit taints its 19 prefixed forms, a wrong prefix taints every prefixed unit
+        badkeys = {c20_num.py(row['key']): row['why'] for row in info['rows']}
+        allkeys = {c20_num.py(r['key']) for r in urows}
+        for k, why in sorted(badkeys.items()):
+            base = k[1:] if len(k) > 1 and k[1:] in allkeys and k not in ('min', 'cd', 'mol', 'Pa', 'ha', 'day', 'au', 'kat', 'Gy', 'Hz', 'eV', 'Da') else None
+            if base is None:
+                rk = 'units:{}:{}'.format(k, why)
+            elif base in badkeys:
+                continue     # reported for the unit itself
+            else:
+                rk = 'units:prefix-{}:{}'.format(k[0], why)
+            rep.violation(rk, 'live SI.units[{!r}] differs from the model table ({})'.format(k, why),
+                          dict(row=[r for r in urows if c20_num.py(r['key']) == k][:1]))
+        for k in info['missing']:
+            rep.violation('units:{}:missing'.format(c20_num.py(k)), 'unit {!r} of the model table is not in the live SI.units'.format(c20_num.py(k)), None)
+        if res.violated and not (info['rows'] or info['missing']):
+            raise RuntimeError('UnitTable violated {} without a reason'.format(res.violated))
+        rep.extra['unit_table_keys_checked'] = len(urows)
+        rep.traces += len(urows)
+
+    def h_num(exhaustive, vac=False):
+        def handler(key, res):
+            _check_design(res, key)
+            if vac:
+                taken = {}
+                for e in res.emitted:
+                    taken[e['act']] = taken.get(e['act'], 0) + 1
+                taken['Absorb'] = res.generated - len(res.emitted)
+                _vacuity(rep, res, 'DimMachine', taken)
+                _need('DimMachine', {e['out']['kind'] for e in res.emitted}, ['q', 'plain', 'bool', 'meta', 'reject', 'noteq', 'none', 'qopaque'])
+            rep.add_tlc(res, exhaustive=exhaustive)
+            r = c20_num.Replayer(rep, 'num')
+            es = res.emitted
+            res.emitted, res.stdout = [], ''
+            es.sort(key=lambda e: e['step'])
+            for e in es:
+                r.step(e)
+                rep.case(c20_num.signature(e), nontrivial=True)
+            rep.traces += len(es)
+            if es:
+                rep.sample(dict(kind='quantity arithmetic ({})'.format(key), transition=es[len(es) // 2]))
+            rep.extra['transitions_replayed_' + key] = len(es)
+            rep.extra['transitions_blocked_' + key] = r.blocked
+        return handler
+
+    ur = c20_units.UnitReplayer(rep)
+
+    def h_unit(exhaustive, vac=False):
+        def handler(key, res):
+            _check_design(res, key)
+            if vac:
+                taken = {}
+                names = dict(define='Define', setattr='DefineExtra', start='Start', addfactor='AddFactor', parse='DoParse', format='DoFormat')
+                for e in res.emitted:
+                    taken[names[e['kind']]] = taken.get(names[e['kind']], 0) + 1
+                _vacuity(rep, res, 'UnitMachine', taken)
+                _need('UnitMachine', {(e['kind'], e['err'], e['ok']) for e in res.emitted},
+                      [('parse', '', True), ('parse', 'ValueError', True), ('format', '', True), ('format', '', False), ('format', 'DimensionError', False),
+                       ('format', 'ValueError', False), ('setattr', '', True), ('setattr', 'collision', False), ('setattr', 'already defined', False)])
+                _need('UnitMachine (nutils.unit)', {e['uerr'] for e in res.emitted if e['kind'] == 'parse'}, ['', 'ValueError'])
+                _need('UnitMachine (dimensionless strings)', {bool(e['pw']) for e in res.emitted if e['kind'] == 'parse' and not e['err']}, [True, False])
+            rep.add_tlc(res, exhaustive=exhaustive)
+            es = [e for e in res.emitted if e['kind'] in ('parse', 'format', 'setattr')]
+            res.emitted, res.stdout = [], ''
+            order = {'parse': 0, 'format': 1, 'setattr': 2}
+            es.sort(key=lambda e: order[e['kind']])
+            n = 0
+            for e in es:
+                sig = c20_units.signature(e)
+                if sig in seen_unit:
+                    continue
+                seen_unit.add(sig)
+                ur.step(e)
+                rep.case(sig, nontrivial=True)
+                n += 1
+            rep.traces += n
+            if es:
+                rep.sample(dict(kind='unit string ({})'.format(key), case={k: v for k, v in es[len(es) // 3].items() if k in ('kind', 's', 'spec', 'err', 'text', 'name')}))
+            rep.extra['unit_cases_replayed_' + key] = n
+        return handler
+
+    seen_unit = set()
+    fr = c20_fn.FnReplayer(rep, rng, 0)
+
+    def h_fn(exhaustive, vac=False, budget=None, numeric=40):
+        def handler(key, res):
+            _check_design(res, key)
+            if vac:
+                taken = {}
+                for e in res.emitted:
+                    a = e['prog'][-1]['act']
+                    taken[a] = taken.get(a, 0) + 1
+                _vacuity(rep, res, 'DimFn', taken)
+                _need('DimFn', {e['prog'][-1]['out']['kind'] for e in res.emitted}, ['q', 'plain', 'reject', 'undef', 'dict', 'sample'])
+            rep.add_tlc(res, exhaustive=exhaustive)
+            es = res.emitted
+            res.emitted, res.stdout = [], ''
+            es.sort(key=lambda e: (len(e['prog']), json.dumps(e['prog'], sort_keys=True), e['nd'], json.dumps(e['init'])))
+            one = [e for e in es if len(e['prog']) == 1]
+            more = [e for e in es if len(e['prog']) > 1]
+            if budget is not None and len(more) > budget:
+                more = rng.sample(more, budget)
+            chosen = one + more
+            pnum = min(1., numeric / max(1, len(chosen)))
+            for e in chosen:
+                fr.run(e, rng.random() < pnum or (len(e['prog']) == 1 and rng.random() < .1))
+                rep.case(c20_fn.signature(e), nontrivial=True)
+            rep.traces += len(chosen)
+            if chosen:
+                e = chosen[-1]
+                rep.sample(dict(kind='function-array program ({})'.format(key), nd=e['nd'], init=[''.join(o['dim']) for o in e['init']],
+                                prog=[(s['f'], s['a'], ''.join(s['out']['dim']) or s['out']['kind']) for s in e['prog']]))
+            rep.extra['programs_replayed_' + key] = len(chosen)
+            rep.extra['programs_generated_' + key] = len(es)
+        return handler
+
+    def h_modelonly(key, res):
+        _check_design(res, key)
+        rep.add_tlc(res, exhaustive=True)
+
+    # ------------------------------------------------------------------ T: export the live tables
     tdisp = os.path.join(WORKROOT, 'dispatch.json')
     tunit = os.path.join(WORKROOT, 'units.json')
-    disp = c20_units.export_dispatch()
-    with open(tdisp, 'w') as f:
-        json.dump(disp, f)
     urows = c20_units.export_units()
     with open(tunit, 'w') as f:
         json.dump(urows, f)
 
-    seed = rep.seed
-    # ---- launch TLC
-    submit('laws', 'MCDimLaws', cfg_text=_cfg('MCDimLaws.cfg', ExpSet='ExpQuick' if quick else 'ExpThorough'), tag='c20-laws', workers=1, deadlock=False)
-    submit('tdisp', 'DimTable', 'DimTable.cfg', tag='c20-tdisp', workers=1, deadlock=False, env=dict(VF_TABLE=tdisp))
-    submit('tunit', 'UnitTable', 'UnitTable.cfg', tag='c20-tunit', workers=1, deadlock=False, env=dict(VF_TABLE=tunit))
-    submit('num', 'MCDimMachine', 'MCDimMachine.cfg', tag='c20-num', workers=8, deadlock=False)
-    submit('fn', 'MCDimFn', 'MCDimFn.cfg', tag='c20-fn', workers=4, deadlock=False)
-    submit('unit', 'MCUnitMachine', 'MCUnitMachine.cfg', tag='c20-unit', workers=8, deadlock=False)
+    # ------------------------------------------------------------------ launch TLC (longest first)
+    submit('unit', h_unit(True, vac=True), 'MCUnitMachine', 'MCUnitMachine.cfg', tag='c20-unit', workers=8, deadlock=False)
+    submit('num', h_num(True, vac=True), 'MCDimMachine', 'MCDimMachine.cfg', tag='c20-num', workers=8, deadlock=False)
     simcfg = _cfg('MCDimMachine.cfg', Pows='MCPowsThorough', MaxSteps=6, FullSteps=6, LeafDedup='FALSE')
-    submit('numsim', 'MCDimMachine', cfg_text=simcfg, tag='c20-numsim', workers=3 if quick else 4, deadlock=False, simulate=dict(num=3 if quick else 24), depth=13, seed=seed)
+    submit('numsim', h_num(False), 'MCDimMachine', cfg_text=simcfg, tag='c20-numsim', workers=2 if quick else 4, deadlock=False,
+           simulate=dict(num=2 if quick else 24), depth=13, seed=seed)
+    submit('fn', h_fn(True, vac=True, budget=1500 if quick else None, numeric=40 if quick else 600), 'MCDimFn', 'MCDimFn.cfg', tag='c20-fn', workers=4, deadlock=False)
+    submit('laws', h_laws, 'MCDimLaws', cfg_text=_cfg('MCDimLaws.cfg', ExpSet='ExpQuick' if quick else 'ExpThorough'), tag='c20-laws', workers=1, deadlock=False)
+    submit('tunit', h_tunit, 'UnitTable', 'UnitTable.cfg', tag='c20-tunit', workers=1, deadlock=False, env=dict(VF_TABLE=tunit))
+    disp = c20_units.export_dispatch()       # (while the JVMs start)
+    with open(tdisp, 'w') as f:
+        json.dump(disp, f)
+    submit('tdisp', h_tdisp, 'DimTable', 'DimTable.cfg', tag='c20-tdisp', workers=1, deadlock=False, env=dict(VF_TABLE=tdisp))
     if not quick:
-        submit('num2', 'MCDimMachine', cfg_text=_cfg('MCDimMachine.cfg', FullSteps=2), tag='c20-num2', workers=6, deadlock=False)
-        submit('num4', 'MCDimMachine', cfg_text=_cfg('MCDimMachine.cfg', BaseOrd='MCBaseOrd4', Seeds='MCSeedsThorough', Pows='MCPowsThorough', MaxSteps=1),
+        submit('num2', h_num(True), 'MCDimMachine', cfg_text=_cfg('MCDimMachine.cfg', FullSteps=2), tag='c20-num2', workers=6, deadlock=False)
+        submit('num4', h_num(True), 'MCDimMachine', cfg_text=_cfg('MCDimMachine.cfg', BaseOrd='MCBaseOrd4', Seeds='MCSeedsThorough', Pows='MCPowsThorough', MaxSteps=1),
                tag='c20-num4', workers=2, deadlock=False)
-        submit('numsim4', 'MCDimMachine', cfg_text=_cfg('MCDimMachine.cfg', BaseOrd='MCBaseOrd4', Seeds='MCSeedsThorough', Pows='MCPowsThorough',
-                                                         MaxSteps=5, FullSteps=5, LeafDedup='FALSE'),
-               tag='c20-numsim4', workers=2, deadlock=False, simulate=dict(num=12), depth=11, seed=seed + 1)
-        submit('fn2', 'MCDimFn', cfg_text=_cfg('MCDimFn.cfg', Inits='MCInitsThorough'), tag='c20-fn2', workers=4, deadlock=False)
-        submit('fn3', 'MCDimFn', cfg_text=_no_emit(_cfg('MCDimFn.cfg', Inits='MCInitsDeep', MaxSteps=3)), tag='c20-fn3', workers=6, deadlock=False)
-        submit('unit2', 'MCUnitMachine', cfg_text=_cfg('MCUnitMachine.cfg', Numbers='MCNumbersThorough', Words1='MCWords1', Words2='MCWords2',
-                                                        Powers1='MCPowers1', Powers2='MCPowers2', Precs='MCPrecs', Precs2='MCPrecs2Thorough'),
+        submit('numsim4', h_num(False), 'MCDimMachine', cfg_text=_cfg('MCDimMachine.cfg', BaseOrd='MCBaseOrd4', Seeds='MCSeedsThorough', Pows='MCPowsThorough',
+                                                                      MaxSteps=5, FullSteps=5, LeafDedup='FALSE'),
+               tag='c20-numsim4', workers=3, deadlock=False, simulate=dict(num=9), depth=11, seed=seed + 1)
+        submit('fn2', h_fn(True, budget=40000, numeric=600), 'MCDimFn', cfg_text=_cfg('MCDimFn.cfg', Inits='MCInitsThorough'), tag='c20-fn2', workers=4, deadlock=False)
+        submit('fn3', h_modelonly, 'MCDimFn', cfg_text=_no_emit(_cfg('MCDimFn.cfg', Inits='MCInitsDeep', MaxSteps=3)), tag='c20-fn3', workers=6, deadlock=False, timeout=1500)
+        submit('unit2', h_unit(True), 'MCUnitMachine', cfg_text=_cfg('MCUnitMachine.cfg', Numbers='MCNumbersThorough', Words1='MCWords1', Words2='MCWords2',
+                                                                     Powers1='MCPowers1', Powers2='MCPowers2', Precs='MCPrecs', Precs2='MCPrecs2Thorough'),
                tag='c20-unit2', workers=8, deadlock=False, timeout=1500)
-        submit('unitsim', 'MCUnitMachine', cfg_text=_cfg('MCUnitMachine.cfg', Numbers='MCNumbersThorough', Words1='MCWords1', Words2='MCWords2',
-                                                          Powers1='MCPowers1', Powers2='MCPowers2', MaxFactors=4),
+        submit('unitsim', h_unit(False), 'MCUnitMachine', cfg_text=_cfg('MCUnitMachine.cfg', Numbers='MCNumbersThorough', Words1='MCWords1', Words2='MCWords2',
+                                                                       Powers1='MCPowers1', Powers2='MCPowers2', Precs='MCPrecs', MaxFactors=4),
                tag='c20-unitsim', workers=2, deadlock=False, simulate=dict(num=60), depth=46, seed=seed)
 
-    timing = rep.extra.setdefault('timing_s', {})
-    t00 = time.time()
-
-    def get(key):
-        t = time.time()
-        res = jobs.pop(key).result()
-        timing[key] = dict(tlc_wall=round(res.wall, 1), waited=round(time.time() - t, 1), at=round(time.time() - t00, 1))
-        return res
-
-    # ---- laws
-    res = get('laws')
-    rep.add_tlc(res, exhaustive=True)
-    if res.postcondition_failed or res.violated:
-        raise RuntimeError('algebraic laws of the dimension model do not hold (MCDimLaws):\n' + res.stdout[-2000:])
-
-    # ---- T: dispatch table
-    res = get('tdisp')
-    rep.add_tlc(res, exhaustive=True)
-    if res.violated == 'ModelOK':
-        raise RuntimeError('model tables ImplFuncs / RuleFuncs disagree')
-    info = res.emitted[-1] if res.emitted else None
-    if info is None:
-        raise RuntimeError('DimTable emitted nothing')
-    for row in info['rows']:
-        rep.violation('table:{}:{}'.format(row['f'], row['why']), 'live dispatch table entry {} does not follow the dimension rule of the model ({})'.format(row['f'], row['why']),
-                      dict(row=[r for r in disp['rows'] if r['f'] == row['f']][:1]))
-    for f in info['missing']:
-        rep.violation('table:{}:missing'.format(f), 'function {} is in the model table but not in the live dispatch table'.format(f), None)
-    for f in info['extra']:
-        rep.violation('table:{}:unresolved'.format(f), 'live dispatch table key {} cannot be named'.format(f), None)
-    if res.violated and not (info['rows'] or info['missing'] or info['extra']):
-        raise RuntimeError('DimTable violated {} without a reason'.format(res.violated))
-    rep.extra['dispatch_entries_checked'] = len(disp['rows'])
-    rep.extra['dispatch_probes_checked'] = sum(info['nprobes'])
-    for r in disp['rows']:
-        rep.case(('table', r['f'], r['disp']), nontrivial=True)
-    rep.traces += len(disp['rows'])
-
-    # ---- T: unit table
-    res = get('tunit')
-    rep.add_tlc(res, exhaustive=True)
-    info = res.emitted[-1] if res.emitted else None
-    if info is None:
-        raise RuntimeError('UnitTable emitted nothing')
-    # root-cause keys: a wrong unit taints its 19 prefixed forms, a wrong prefix taints every prefixed unit
-    badkeys = {c20_num.py(row['key']): row['why'] for row in info['rows']}
-    allkeys = {c20_num.py(r['key']) for r in urows}
-    for k, why in sorted(badkeys.items()):
-        base = k[1:] if len(k) > 1 and k[1:] in allkeys and k not in ('min', 'cd', 'mol', 'Pa', 'ha', 'day', 'au', 'kat', 'Gy', 'Hz', 'eV', 'Da') else None
-        if base is None:
-            rk = 'units:{}:{}'.format(k, why)
-        elif base in badkeys:
-            continue     # reported for the unit itself
-        else:
-            rk = 'units:prefix-{}:{}'.format(k[0], why)
-        rep.violation(rk, 'live SI.units[{!r}] differs from the model table ({})'.format(k, why),
-                      dict(row=[r for r in urows if c20_num.py(r['key']) == k][:1]))
-    for k in info['missing']:
-        rep.violation('units:{}:missing'.format(c20_num.py(k)), 'unit {!r} of the model table is not in the live SI.units'.format(c20_num.py(k)), None)
-    if res.violated and not (info['rows'] or info['missing']):
-        raise RuntimeError('UnitTable violated {} without a reason'.format(res.violated))
-    rep.extra['unit_table_keys_checked'] = len(urows)
-    rep.traces += len(urows)
-
-    # ---- arithmetic on numbers: exhaustive two-operation behaviours + random deep behaviours
-    replayer = c20_num.Replayer(rep, 'num')
-
-    def replay_num(key, exhaustive, vac=False, fresh=False):
-        res = get(key)
-        _check_design(res, key)
-        if vac:
-            taken = {}
-            for e in res.emitted:
-                taken[e['act']] = taken.get(e['act'], 0) + 1
-            taken['Absorb'] = res.generated - len(res.emitted)
-            _vacuity(rep, res, 'DimMachine', taken)
-            _need('DimMachine', {e['out']['kind'] for e in res.emitted}, ['q', 'plain', 'bool', 'meta', 'reject', 'noteq', 'none', 'qopaque'])
-        rep.add_tlc(res, exhaustive=exhaustive)
-        r = c20_num.Replayer(rep, 'num') if fresh else replayer
-        es = res.emitted
-        res.emitted, res.stdout = [], ''
-        es.sort(key=lambda e: e['step'])
-        for e in es:
-            r.step(e)
-            rep.case(c20_num.signature(e), nontrivial=True)
-        rep.traces += len(es)
-        if es:
-            rep.sample(dict(kind='quantity arithmetic ({})'.format(key), transition=es[len(es) // 2]))
-        rep.extra['transitions_replayed_' + key] = len(es)
-
-    replay_num('num', True, vac=True)
-    replay_num('numsim', False)
-
-    # ---- units
-    ur = c20_units.UnitReplayer(rep)
-
-    def replay_unit(key, exhaustive, vac=False):
-        res = get(key)
-        _check_design(res, key)
-        if vac:
-            taken = {}
-            names = dict(define='Define', setattr='DefineExtra', start='Start', addfactor='AddFactor', parse='DoParse', format='DoFormat')
-            for e in res.emitted:
-                taken[names[e['kind']]] = taken.get(names[e['kind']], 0) + 1
-            _vacuity(rep, res, 'UnitMachine', taken)
-            _need('UnitMachine', {(e['kind'], e['err'], e['ok']) for e in res.emitted},
-                  [('parse', '', True), ('parse', 'ValueError', True), ('format', '', True), ('format', '', False), ('format', 'DimensionError', False),
-                   ('format', 'ValueError', False), ('setattr', '', True), ('setattr', 'collision', False), ('setattr', 'already defined', False)])
-            _need('UnitMachine (nutils.unit)', {e['uerr'] for e in res.emitted if e['kind'] == 'parse'}, ['', 'ValueError'])
-            _need('UnitMachine (dimensionless strings)', {bool(e['pw']) for e in res.emitted if e['kind'] == 'parse' and not e['err']}, [True, False])
-        rep.add_tlc(res, exhaustive=exhaustive)
-        es = [e for e in res.emitted if e['kind'] in ('parse', 'format', 'setattr')]
-        res.emitted, res.stdout = [], ''
-        order = {'parse': 0, 'format': 1, 'setattr': 2}
-        es.sort(key=lambda e: order[e['kind']])
-        seen = set()
-        n = 0
-        for e in es:
-            sig = c20_units.signature(e)
-            if sig in seen:
-                continue
-            seen.add(sig)
-            ur.step(e)
-            rep.case(sig, nontrivial=True)
-            n += 1
-        rep.traces += n
-        if es:
-            rep.sample(dict(kind='unit string ({})'.format(key), case={k: v for k, v in es[len(es) // 3].items() if k in ('kind', 's', 'spec', 'err', 'text', 'name')}))
-        rep.extra['unit_cases_replayed_' + key] = n
-
-    replay_unit('unit', True, vac=True)
-
-    # ---- function arrays
-    fr = c20_fn.FnReplayer(rep, rng, 0)
-
-    def replay_fn(key, exhaustive, vac=False, budget=None, numeric=40):
-        res = get(key)
-        _check_design(res, key)
-        if vac:
-            taken = {}
-            for e in res.emitted:
-                a = e['prog'][-1]['act']
-                taken[a] = taken.get(a, 0) + 1
-            _vacuity(rep, res, 'DimFn', taken)
-            _need('DimFn', {e['prog'][-1]['out']['kind'] for e in res.emitted}, ['q', 'plain', 'reject', 'undef', 'dict', 'sample'])
-        rep.add_tlc(res, exhaustive=exhaustive)
-        es = res.emitted
-        res.emitted, res.stdout = [], ''
-        es.sort(key=lambda e: len(e['prog']))
-        one = [e for e in es if len(e['prog']) == 1]
-        more = [e for e in es if len(e['prog']) > 1]
-        if budget is not None and len(more) > budget:
-            more = rng.sample(more, budget)
-        chosen = one + more
-        pnum = min(1., numeric / max(1, len(chosen)))
-        t0 = time.time()
-        for e in chosen:
-            fr.run(e, rng.random() < pnum or (len(e['prog']) == 1 and rng.random() < .15))
-            rep.case(c20_fn.signature(e), nontrivial=True)
-        rep.traces += len(chosen)
-        if chosen:
-            e = chosen[-1]
-            rep.sample(dict(kind='function-array program ({})'.format(key), nd=e['nd'], init=[''.join(o['dim']) for o in e['init']],
-                            prog=[(s['f'], s['a'], ''.join(s['out']['dim']) or s['out']['kind']) for s in e['prog']]))
-        rep.extra['programs_replayed_' + key] = len(chosen)
-        rep.extra['programs_generated_' + key] = len(es)
-
-    replay_fn('fn', True, vac=True, budget=2500 if quick else None, numeric=60 if quick else 600)
-
-    if not quick:
-        replay_num('num2', True)
-        replay_num('num4', True, fresh=True)
-        replay_num('numsim4', False, fresh=True)
-        replay_unit('unit2', True)
-        replay_unit('unitsim', False)
-        replay_fn('fn2', True, budget=40000, numeric=600)
-        res = get('fn3')
-        _check_design(res, 'fn3')
-        rep.add_tlc(res, exhaustive=True)
+    # ------------------------------------------------------------------ consume the results as they arrive
+    try:
+        for fut in concurrent.futures.as_completed(list(jobs)):
+            key = jobs[fut]
+            res = fut.result()
+            t = time.time()
+            handlers[key](key, res)
+            timing[key] = dict(tlc_wall=round(res.wall, 1), handled_in=round(time.time() - t, 1), done_at=round(time.time() - t00, 1))
+    finally:
+        ex.shutdown(wait=False, cancel_futures=True)
 
     rep.extra['fn_numeric_evaluations'] = fr.numeric_done
     rep.extra['fn_numeric_skipped'] = fr.numeric_skipped
     rep.extra['fn_programs_not_meaningful_on_plain_arrays'] = fr.plain_raises
     rep.extra['fn_programs_blocked_by_earlier_failure'] = fr.blocked
     rep.extra['unitpy_cases'] = ur.nupy
-    ex.shutdown()
     rep.constants['DimMachine'] = dict(bases='L,M,T (+theta thorough)', seeds='7 (12 thorough)', MaxSteps='2 exhaustive; 6 in simulation', MaxVal=10000)
     rep.constants['DimFn'] = dict(inits='4 (9 thorough)', MaxSteps='2 (3 model-only thorough)', space_dims='2,3')
-    rep.constants['UnitMachine'] = dict(MaxFactors='2 (4 in simulation, thorough)', words='26 / 54', precisions='default,0,1,3')
-    rep.constants['MCDimLaws'] = dict(universe='exponents {-2,-1,-1/2,0,1/2,1,2}^3 (quick: 5 values)')
+    rep.constants['UnitMachine'] = dict(MaxFactors='2 (4 in simulation, thorough)', words='26 / 54', precisions='default,0,2 (0,1,3 thorough)')
+    rep.constants['MCDimLaws'] = dict(universe='exponents {-2,-1/2,0,1}^3 quick, {-2,-1,-1/2,0,1/2,1,2}^3 thorough')
     rep.rule = ('cases = distinct (function, operand classes and shapes, parameter, predicted outcome) of replayed quantity transitions '
                 '+ distinct function-array programs + distinct unit strings / format specs / unit definitions + live table rows')
     rep.assumptions += [
         'values in the numeric model are exact rationals (scalars and 2-vectors); operations whose exact value the model cannot express (inexact roots, |n|,d > 10^4) are not explored',
         'refusal of == / != between different dimensions may take the form of the constant answer False / True (Python falls back to identity comparison when __eq__ returns NotImplemented); any other mismatch must raise TypeError/DimensionError (ValueError is accepted where NumPy hands the call to nutils.function first)',
-        'function-array values are compared with the same program on the unwrapped arrays (the property\'s own reference) on one curved 2D/3D mesh; the model decides classes and rejections',
+        'function-array values are compared with the same program on the unwrapped arrays (the reference the property itself names) on one curved 2D/3D mesh; the model decides classes and rejections',
         'jacobian(geom) without ndims has no statically known dimension: the model demands that it does not return a value',
         'Topology.locate: the default tol=0 is a dimensionless number and is refused like any other dimensionless tol when the geometry is dimensional (modelled as the code does; observation, not judged)',
         'unit strings: number literals without exponent; powers p or p_q with q in {1,2,3}; float noise below 1e-12 relative is ignored; format precision cases avoid exact rounding ties',
+        'action coverage is counted from the emitted states (TLC -coverage runs out of memory on the nested RECURSIVE operators of these specs)',
     ]
